@@ -6,6 +6,7 @@ package symgo
 import (
 	"fmt"
 	"go/types"
+	"os"
 
 	"golang.org/x/tools/go/ssa"
 	"verif/engine/smt"
@@ -185,6 +186,13 @@ func init() {
 		},
 		"verif_is_symbolic_run": func(fr *frame, a []value) value { return true },
 		"verif_observe": func(fr *frame, a []value) value {
+			if os.Getenv("VERIF_DEBUG") != "" {
+				v := a[1]
+				if it, ok := v.(iface); ok {
+					v = it.v
+				}
+				fmt.Fprintf(os.Stderr, "OBSERVE %s = %q\n", argString(a[0]), fmt.Sprint(nativeArg(fr, v)))
+			}
 			return nil
 		},
 		// mathematical integers for reference computations
